@@ -17,6 +17,8 @@ def iter {α} (f : α → α) : Nat → α → α
   | 0, a => a
   | k+1, a => iter f k (f a)
 
+namespace User
+
 theorem iter_succ' {α} (f : α → α) (k : Nat) (a : α) : iter f (k+1) a = f (iter f k a) := by
   induction k generalizing a with
   | zero => rfl
@@ -50,4 +52,5 @@ theorem nextSub_closed (c k : Nat) (h : 1 ≤ c ∧ c ≤ 268435455) :
     simp only [iter]
     rw [ih _ (nextSub_range c)]; unfold nextSub; split <;> omega
 
+end User
 end Poster
